@@ -392,6 +392,13 @@ fn c09_build(cfg: &[u16]) -> Built {
     if s.chance(40) {
         setup.push(("n0".into(), "MODE #c0 +i".into()));
     }
+    // other obstacles an invited user can meet first (the invitation must survive a refusal)
+    if s.chance(25) {
+        setup.push(("n0".into(), format!("MODE #c0 +l {}", 1 + s.pick(users))));
+    }
+    if s.chance(20) {
+        setup.push(("n0".into(), "MODE #c0 +k k1".into()));
+    }
     let prof = Profile::base().with(&[
         (K::Kick, 26),
         (K::Topic, 20),
@@ -492,6 +499,19 @@ fn c10_build(cfg: &[u16]) -> Built {
 }
 
 fn c10_owns(d: &Disc, out: &StepOut, _t: &Trace) -> bool {
+    // a change of what governs speaking (voice, +m, +n, bans and exceptions) that is announced
+    // although it must be refused, or the other way round, changes who may speak
+    if out.ctx == "MODE#" && !out.is_probe {
+        if let Disc::Missing { line, .. } | Disc::Extra { line, .. } = d {
+            return line[0] != "S"
+                && line[1] == "MODE"
+                && line[3..].iter().any(|p| {
+                    let mut c = p.chars();
+                    matches!(c.next(), Some('+') | Some('-')) && c.next().map_or(false, |l| "vmnbe".contains(l))
+                });
+        }
+        return false;
+    }
     if !(out.ctx == "PRIVMSG" || out.ctx == "NOTICE") {
         return false;
     }
